@@ -22,6 +22,16 @@ import icontract._checkers
 # pylint: skip-file
 
 
+def _defines(cls: type, key: str) -> bool:
+    """
+    Check that ``cls`` or one of its ancestors defines the member ``key``.
+
+    Unlike ``hasattr(cls, key)``, this ignores the attributes which the class object merely gets from its meta-class
+    (*e.g.*, ``__call__``, ``mro`` or ``register``) as these are not members of the instances.
+    """
+    return any(key in vars(ancestor) for ancestor in cls.__mro__)
+
+
 def _collapse_invariants(
     bases: List[type], namespace: MutableMapping[str, Any], invariants_dunder: str
 ) -> None:
@@ -170,7 +180,7 @@ def _decorate_namespace_function(
         bases_have_func = False
         bases_accept_all = False
         for base in bases:
-            if hasattr(base, key):
+            if _defines(base, key):
                 bases_have_func = True
 
                 # Check if there is a checker function in the base class
@@ -263,7 +273,7 @@ def _decorate_namespace_property(
         bases_have_func = False
         bases_accept_all = False
         for base in bases:
-            if hasattr(base, key):
+            if _defines(base, key):
                 base_property = getattr(base, key)
                 assert isinstance(
                     base_property, property
